@@ -6,7 +6,7 @@ import props.audio_common as ac
 
 MANIFEST = {
     "level": "proof",
-    "text": "Turns on only when: every function of package audio other than the three trigger functions and the four NRx4 handlers is proved (frame-style obligation over all of them) never to change a channel's status from off to on, and trigger is proved to leave the channel on iff its DAC is on (for channel 1 with a non-zero sweep shift: and the immediate sweep calculation does not exceed 2047); NRx4 can turn a channel on only with sound powered, bit 7 set and the DAC on. Turns off when: WriteNRx2 / WriteNR30 with the DAC bits clear, WriteNR52 power-off, calculateFrequency > 2047 and tickLength reaching zero are each proved to clear the status bit. Length: WriteNRx1 loads 64-t (256-t), trigger reloads a zero counter with 64 (256), tickLength decrements exactly while length-enabled and non-zero and switches the channel off exactly when the counter reaches zero, tickFrameSequencer clocks the four length counters on every even step and tickClock runs it every 8192 clock cycles (256 Hz), NRx4 applies the extra length clock exactly when length becomes enabled, or the channel is triggered with a reloaded counter, in the first half of a frame-sequencer period; an induction lemma over the tickLength contract gives 'on for exactly L length clocks'.",
+    "text": "Turns on only when: every function of package audio other than the three trigger functions and the four NRx4 handlers is proved (frame-style obligation over all of them) never to change a channel's status from off to on, and trigger is proved to leave the channel on iff its DAC is on (for channel 1 with a non-zero sweep shift: and the immediate sweep calculation does not exceed 2047); NRx4 can turn a channel on only with sound powered, bit 7 set and the DAC on. Turns off when: WriteNRx2 / WriteNR30 with the DAC bits clear, WriteNR52 power-off, calculateFrequency > 2047 and tickLength reaching zero are each proved to clear the status bit. Length: WriteNRx1 loads 64-t (256-t), trigger reloads a zero counter with 64 (256), tickLength decrements exactly while length-enabled and non-zero and switches the channel off exactly when the counter reaches zero, tickFrameSequencer clocks the four length counters on every even step and tickClock runs it every 8192 clock cycles (256 Hz), NRx4 applies the extra length clock exactly when length becomes enabled, or the channel is triggered with a reloaded counter, in the first half of a frame-sequencer period; an induction lemma over the tickLength contract gives 'on for exactly L length clocks'. tickSweep is verified against the documented sweep clock (the channel is switched off by either overflow check and by nothing else); a redundant power-on write to NR52 leaves the frame sequencer alone.",
     "note": "Trusted: go/ssa, engine semantics, z3. Deliberate don't-care (DESIGN.md C19): the trigger-time extra clock is also applied when the counter was loaded (not reloaded) with the maximum; the statement does not decide that corner and the contract follows the code there.",
     "technique": "function contracts + a never-turns-on frame sweep over all functions of the package + induction lemma over the length contract; z3",
     "design_ref": "DESIGN.md section 4 C19",
@@ -16,7 +16,7 @@ FU = ["(*audio.square).tickLength", "(*audio.wave).tickLength", "(*audio.noise).
 AU = ["WriteNR11", "WriteNR21", "WriteNR31", "WriteNR41", "WriteNR12", "WriteNR22", "WriteNR30", "WriteNR42", "WriteNR14", "WriteNR24", "WriteNR34",
       "WriteNR44", "WriteNR52", "tickFrameSequencer"]
 KEEP = keep_labels({"count", "idle", "value", "overflow", "fine", "on", "length", "status", "dac", "off", "lenable", "notrigger", "trigger", "turnon",
-                    "seq", "step", "len1", "len2", "len3", "len4", "expire2", "expire3", "expire4", "noturnon", "ok"})
+                    "seq", "redundant", "step", "len1", "len2", "len3", "len4", "expire2", "expire3", "expire4", "noturnon", "ok"})
 
 
 def tasks(ctx):
@@ -25,6 +25,7 @@ def tasks(ctx):
     ts.append(Task("(*audio.square).trigger[ch1]", "(*audio.square).trigger", variant="with-sweep", keep=KEEP))
     ts.append(Task("(*audio.square).trigger[ch2]", "(*audio.square).trigger", variant="no-sweep", overrides={"s.sweep": ac.nil_value}, keep=KEEP))
     ts += [Task(ac.A + f, ac.A + f, overrides=ov, keep=KEEP) for f in AU]
+    ts.append(Task("(*audio.square).tickSweep", "(*audio.square).tickSweep", keep=keep_labels({"off", "idle"})))
     for fn in ac.chan_funcs(ctx):
         if fn not in ac.TURN_ON_ALLOWED:
             ts.append(ac.never_turns_on_task(fn))
